@@ -2,7 +2,7 @@
 """prints the prompt for an independent mutant-writing sub-agent: property text only + its own worktree"""
 import json, sys, subprocess, os
 pid = sys.argv[1]; tag = sys.argv[2] if len(sys.argv) > 2 else pid
-round2 = len(sys.argv) > 3 and sys.argv[3] in ("round2", "round3", "round4", "round5", "round6")
+round2 = len(sys.argv) > 3 and sys.argv[3] in ("round2", "round3", "round4", "round5", "round6", "round7")
 round4 = len(sys.argv) > 3 and sys.argv[3] == "round4"
 p = [json.loads(l) for l in open('/verif/properties.jsonl') if json.loads(l)['id'] == pid][0]
 wt = '/tmp/mut_%s' % tag
@@ -47,6 +47,13 @@ if round4:
 ADDITIONALLY (fourth deliverable, out/4/): a BEHAVIOUR-PRESERVING refactoring of the same code region one of your breaking changes touches - the kind of clean-up a maintainer would do (rename locals/members, restructure a loop or condition into an equivalent form, extract a helper function, replace a container or an index loop by iterators, reorder independent statements, change comments/whitespace) - that keeps the property TRUE for every input. It must be non-trivial (at least ~10 changed lines), compile, and pass the test suite. Deliver out/4/patch.diff and out/4/README.md (what was refactored and why behaviour is unchanged); no demo needed. Do not mix it with the breaking changes.
 For the three breaking changes in this round, stay REALISTIC rather than exotic: plausible maintenance mistakes in the code that implements the property (an optimisation with a wrong fast path, a cache, a boundary off-by-one, a reordered pair of steps, a forgotten case in a switch, a condition inverted only for one configuration, a changed default, a wrong type width, a lock scope moved), each needing a specific but perfectly legal trigger.""")
 
-if len(sys.argv) > 3 and sys.argv[3] in ("round5", "round6"):
+if len(sys.argv) > 3 and sys.argv[3] in ("round5", "round6", "round7", "round8"):
     print("""
 For the three breaking changes in this round, stay REALISTIC rather than exotic: plausible maintenance mistakes in the code that implements the property (an optimisation with a wrong fast path, a cache, a boundary off-by-one, a reordered pair of steps, a forgotten case in a switch, a condition inverted only for one configuration, a changed default, a wrong type width, a lock scope moved, an early return that skips bookkeeping, error handling that swallows or mis-orders a step), each needing a specific but perfectly legal trigger. At least one of the three should touch a DIFFERENT source file or function than the ideas listed above mostly touch (a helper, a base class, a shared utility, a header the main code relies on).""")
+
+if len(sys.argv) > 3 and sys.argv[3] == "round8":
+    # round 8: nothing derived from /verif/seeded goes into the prompt (property text + worktree only)
+    print("\nPrefer changes of these kinds: two cooperating code sites that each look fine alone; state that leaks between calls, objects, threads or process runs; behaviour that only differs for a boundary value of a configuration parameter (0, 1, negative, INT_MAX) or an unusual-but-legal API usage (same object used twice, call order reversed, empty/NULL argument); a platform/library assumption (locale, time zone, file system timestamp granularity, QString null vs empty). Avoid the first idea that comes to mind - pick the second or third.")
+if len(sys.argv) > 3 and sys.argv[3] in ("round7", "round8"):
+    print("""
+OVERRIDE for this round: deliver TWO changes only (out/1 and out/2), not three, and stop after about 25 minutes of work - a verified pair is worth more than three unverified ones. Build with `cmake --build _build -j6` / `ctest -j6` (other jobs share this machine; a ctest failure of OwnThreadHandlerTest alone under load may be retried once with --rerun-failed).""")
